@@ -57,6 +57,9 @@ def main():
         for alg in ("GP", "RS"):
             configs.append({"rep": rk, "alg": alg, "grammar": "weighted", "seed": R.randint(0, 10 ** 6), "init": "standard",
                             "evals": 40, "pop": 8, "decider": "pt", "minimize": R.random() < 0.5})
+    for gname in (["arith", "weighted"] if quick else ["arith", "weighted", "nested", "mutual", "refined"]):
+        configs.append({"rep": "tree", "alg": "SGP", "grammar": gname, "seed": R.randint(0, 10 ** 6), "init": "standard",
+                        "evals": 40, "pop": 8, "decider": "grow", "minimize": R.random() < 0.5})
     for alg in ["GP", "HC", "RS", "OPO"]:
         configs.append({"rep": R.choice(reps), "alg": alg, "grammar": "refined", "seed": R.randint(0, 10 ** 6), "init": "standard",
                         "evals": 30, "pop": 8, "decider": "grow", "minimize": R.random() < 0.5, "own_tracker": True})
